@@ -6,6 +6,10 @@ source on every run) AND correspondence: `VariationalELBO` / `PredictiveLogLikel
 the Lean model (`GPVerif.Model.ELBO`, executed over ℚ by `drivers/C15.lean`, with q(f) and KL from the C14 model);
 for the Gaussian likelihood the chain  N·ELBO(q) ≤ L_collapsed ≤ log N(y; m, K+σ²I), equality at q*, and one
 `NGD(lr=1)` step from random natural parameters landing on q*.
+
+Wave 3: part D (configurations x histories on one object, prescribed jitter — see `variant_configs`), and the chain
+code-backward -> optimum (`check_backward_chain`, theorems of Part 4 in Props/C15.lean about the regenerated
+`_NaturalToMuVarSqrt._forward/_backward`).
 """
 import itertools
 import math
@@ -18,32 +22,68 @@ from props import c14 as V
 
 ID = "C15"
 PROP_MODULES = ["GPVerif.Props.C15"]
-BUILD_TARGETS = ["GPVerif.Props.C15", "GPVerif.Model.ELBO", "GPVerif.Model.Variational", "GPVerif.Gen.ElboScaling", "GPVerif.Gen.VariationalAlgebra", "GPVerif.Model.Proto"]
+BUILD_TARGETS = ["GPVerif.Props.C15", "GPVerif.Model.ELBO", "GPVerif.Model.Variational", "GPVerif.Gen.ElboScaling", "GPVerif.Gen.VariationalAlgebra", "GPVerif.Model.Proto",
+                 "GPVerif.Gen.NaturalGrad", "GPVerif.Gen.NaturalForward", "GPVerif.Gen.StrategyEnv"]
 RULE = ("objective value: {VariationalELBO, PredictiveLogLikelihood} x {whitened, unwhitened} x variational distribution "
         "x beta x num_data N x minibatch size B x priors on/off x added losses (0,1,2) x parameter batch; one case per "
         "batch element.  Bound chain (Gaussian likelihood): per data set, random q(u), adversarial q near q*, q* itself, "
-        "and one NGD(lr=1) step from random natural parameters; distinct = distinct (config, seed-derived data/parameters); "
+        "and one NGD(lr=1) step from random natural parameters; part D: one object x {learn_inducing_locations False / "
+        "frozen / True} x {jitter default / constructor / assigned} x {built in float32 then .double(), built / used under "
+        "different variational_cholesky_jitter settings} x history {assign, optimiser step, load_state_dict, assign twice + "
+        "other minibatch, q-only} with every evaluation judged; FixedNoise with B == number of stored noise values and "
+        "call-time noise; per NGD case the recorded arguments of _NaturalToMuVarSqrt._backward vs the chain-rule pair of "
+        "theorem elbo_grad_mu_chol; distinct = distinct (config, seed-derived data/parameters, evaluation index); "
         "non-trivial = n>=2, M>=2, q != p")
 TRUSTED = ["translator harness/translate/g4_elbo_scaling.py (Python ast -> scaling expressions)",
+           "translators g4_natural_forward.py (_NaturalToMuVarSqrt._forward + autograd plumbing), g4_strategy_env.py (jitter "
+           "resolution, memo discipline of a training call), C19's g5_natgrad.py (_backward): differentially tested on every "
+           "run (driver lines NF / J / NB / NBT execute the generated definitions)",
+           "the jitter a configuration prescribes (explicit value, else the setting at use time, documented float64 default "
+           "1e-6) is stated by the harness, never read from the strategy object",
            "q(f) and KL(q(u)||p(u)) from the C14 model (drivers/C14.lean) — checked against the real code by C14",
            "mpmath (60 digits) for log / lgamma; shipped to the driver as rationals rounded to 2^-240",
-           "torch autograd for the gradient handed to NGD (the gradient itself is compared with the model's affine formula)"]
+           "torch autograd: that it hands _NaturalToMuVarSqrt.backward the true gradient of the upstream graph is OBSERVED "
+           "(recorded pair vs the pair of theorem elbo_grad_mu_chol), everything downstream of that pair is proved"]
 ASSUMPTIONS = ["priors: the log-density formulas of NormalPrior / GammaPrior are taken from their definition (C17 owns them)",
                "Gaussian likelihood with homoskedastic noise; observation_nan_policy off"]
 EXHAUSTIVE = False
 
 GEN = os.path.join(C.LEAN_DIR, "GPVerif", "Gen", "ElboScaling.lean")
+GEN_NATFWD = os.path.join(C.LEAN_DIR, "GPVerif", "Gen", "NaturalForward.lean")
+GEN_STRATENV = os.path.join(C.LEAN_DIR, "GPVerif", "Gen", "StrategyEnv.lean")
+GEN_NATGRAD = os.path.join(C.LEAN_DIR, "GPVerif", "Gen", "NaturalGrad.lean")      # written by C19's translator g5_natgrad
 _state = {}
 
 
 def generate(ctx):
     sys.path.insert(0, os.path.join(C.VERIF, "harness"))
-    from translate import g4_elbo_scaling
+    from translate import g4_elbo_scaling, g4_natural_forward, g4_strategy_env, g5_natgrad
     t, changed = g4_elbo_scaling.generate(C.REPO, GEN)
     V.generate(ctx)          # the C14 driver (q(f), KL) evaluates the generated variational algebra
     _state["gen"] = t
     ctx.notes["gen_changed"] = changed or ctx.notes.get("gen_changed", False)
     ctx.notes["gen_expressions"] = {k: t[k] for k in ("ll", "kl", "lp", "al", "comb", "ngd")}
+
+    def checker(path):
+        def check(text):
+            ok, errs = g4_elbo_scaling._elaborates(text, path)
+            return None if ok else (errs or "does not elaborate")
+        return check
+    # wave 3: the natural parameterisation — `_forward` / autograd plumbing (own translator) and `_backward`
+    # (C19's translator; C15's Part-4 theorems and the NB / NBT driver lines are about its output)
+    try:
+        ch1 = g4_natural_forward.generate(C.REPO, GEN_NATFWD, check=checker(GEN_NATFWD))
+    except g4_natural_forward.TranslateError as e:
+        raise g4_elbo_scaling.TranslateError(f"g4_natural_forward: {e}")
+    try:
+        ch2 = g5_natgrad.generate(C.REPO, GEN_NATGRAD, check=checker(GEN_NATGRAD))
+    except g5_natgrad.TranslateError as e:
+        raise g4_elbo_scaling.TranslateError(f"g5_natgrad: {e}")
+    try:
+        ch3 = g4_strategy_env.generate(C.REPO, GEN_STRATENV, check=checker(GEN_STRATENV))
+    except g4_strategy_env.TranslateError as e:
+        raise g4_elbo_scaling.TranslateError(f"g4_strategy_env: {e}")
+    ctx.notes["gen_changed"] = bool(ch1 or ch2 or ch3 or ctx.notes.get("gen_changed", False))
 
 
 # ------------------------------------------------------------------ helpers
@@ -105,6 +145,29 @@ def finish_model(cfg, make):
     if cfg.get("jitter_mode") == "assigned":
         model.variational_strategy.jitter_val = cfg["jitter"]
     return model
+
+
+def check_generated_jitter(ctx, d15, cfg, eps):
+    """The jitter resolution GENERATED from `_VariationalStrategy` (`__init__`, property, setter) — evaluated by the
+    driver on this configuration's (constructor argument, assigned value, setting at construction, setting at use) —
+    must give the jitter the configuration prescribes; and a training-mode call must start from an empty memo."""
+    if d15 is None:
+        return
+    r = lambda v: "none" if v is None else C.rat_str(V.F(v))      # noqa: E731
+    mode = cfg.get("jitter_mode")
+    # setting for the dtype the constructor saw (float32 default 1e-4 / float64 default 1e-6, or the build context)
+    at_ctor = cfg.get("jitter_ctx_build") or (1e-4 if cfg.get("build_dtype") == "float32" else DEFAULT_JITTER_DOUBLE)
+    at_use = cfg.get("jitter_ctx_use") or DEFAULT_JITTER_DOUBLE
+    got, memo = d15.ask(f"J {r(cfg['jitter'] if mode == 'ctor' else None)} {r(cfg['jitter'] if mode == 'assigned' else None)} "
+                        f"{C.rat_str(V.F(at_ctor))} {C.rat_str(V.F(at_use))}")
+    if V.sc(got) != eps:
+        ctx.broke("correspondence", "generated-jitter-vs-prescribed",
+                  f"{env_tag(cfg) or ' [defaults]'}: the jitter resolution generated from _VariationalStrategy gives "
+                  f"{float(V.sc(got))}, the configuration prescribes {float(eps)}")
+    if V.sc(memo) != 1:
+        ctx.broke("correspondence", "generated-training-call-keeps-memo",
+                  "generated from the source: a training-mode call does not start from an empty memo table "
+                  "(`_clear_cache` overridden / not called first / not clear_cache_hook)")
 
 
 def build(cfg, rng, natural=False):
@@ -352,6 +415,7 @@ def judge_objective(ctx, d14, d15, cfg, cls_name, model, lik, dist, x, y, out, n
     n = x.shape[-2]
     lk = cfg.get("lik", "gaussian")
     eps = prescribed_jitter(cfg)
+    check_generated_jitter(ctx, d15, cfg, eps)
     parts = None
     if combine:
         val = out.detach().clone()
@@ -719,7 +783,7 @@ def run_ngd(ctx, d14, d15, cfg, rng, model0, lik, x, y, exact, collapsed, scale,
     e1_0 = V.fcol(ndist.natural_vec.detach())
     e2_0 = V.fmat(ndist.natural_mat.detach())
     opt.zero_grad()
-    with jitter_setting(cfg.get("jitter_ctx_use")):
+    with jitter_setting(cfg.get("jitter_ctx_use")), BackwardSpy() as spy:
         loss = -mll(model(x), y)
         loss.backward()
     g1 = ndist.natural_vec.grad.detach().clone()
@@ -735,6 +799,10 @@ def run_ngd(ctx, d14, d15, cfg, rng, model0, lik, x, y, exact, collapsed, scale,
         _state["worst_grad"] = max(_state.get("worst_grad", 0.0), gerr / gs)
         if gerr > 1e-7 * gs * max(1.0, kappa * 1e-3):
             ctx.broke("correspondence", "ngd-gradient", f"{desc0}: autograd natural gradient differs from -(1/N)(eta*-eta) by {gerr}")
+        if len(spy.calls) != 1:
+            ctx.broke("correspondence", "backward-not-called-once", f"{desc0}: _NaturalToMuVarSqrt._backward called {len(spy.calls)} times")
+        else:
+            check_backward_chain(ctx, d14, d15, desc0, spy.calls[0], M, n, L, kzx, r, s, N, e1_0, e2_0, kappa)
     opt.step()
     # generated update expression vs the real in-place update
     (s1,) = d15.ask(f"S {M} 1 {V.toks(e1_0)} {V.toks(V.fcol(g1))} 1 {N}")
@@ -794,6 +862,84 @@ def make_ngd(params, N, hist):
 
 
 NGD_HISTORIES = ["direct", "lr-assigned", "lr-scheduler", "num_data-assigned"]
+
+
+class BackwardSpy:
+    """Records the arguments torch autograd hands to `_NaturalToMuVarSqrt._backward` (through `.backward`) and what it
+    returns — the real code is called unchanged."""
+
+    def __enter__(self):
+        from gpytorch.variational import natural_variational_distribution as nvd
+        self.cls = nvd._NaturalToMuVarSqrt
+        self.orig = self.cls.__dict__["_backward"]
+        self.calls = calls = []
+        f = self.cls._backward
+
+        def spy(dout_dmu, dout_dL, mu, L, C):
+            args = tuple(t.detach().clone() for t in (dout_dmu, dout_dL, mu, L, C))
+            out = f(dout_dmu, dout_dL, mu, L, C)
+            calls.append(args + tuple(t.detach().clone() for t in out))
+            return out
+        self.cls._backward = staticmethod(spy)
+        return self
+
+    def __exit__(self, *a):
+        setattr(self.cls, "_backward", self.orig)
+        return False
+
+
+def check_backward_chain(ctx, d14, d15, desc, rec, M, n, Lk, kzx, r, s, N, e1, e2, kappa):
+    """Part-4 chain on one (batch element of a) recorded `_backward` call, whitened strategy.
+    (i)  exact: the generated `_backward` applied to the chain-rule pair of theorem `elbo_grad_mu_chol` (computed from the
+         exact `(μ, L)` of the natural parameters) returns `lossGradExpectation` — theorem `natural_backward_elbo_gradient`
+         executed on the regenerated code;
+    (ii) observed link: the pair torch autograd really delivered = that chain-rule pair (lower triangle of `dout_dL`);
+    (iii) the regenerated `_backward` on the recorded tensors = what the implementation returned;
+    (iv) the regenerated `_forward` = the C14 natural map = the recorded `(μ, L)`."""
+    gmu, gL, mu, L, Cinv, o1, o2 = rec
+    mu_x, S_x, b1, b2 = d14.ask(f"DN {M} {V.toks(e1)} {V.toks(e2)}")
+    Lx = V.hp_chol(S_x)
+    rep = d15.ask(f"NBT {M} {n} {V.toks(Lk)} {V.toks(kzx)} {V.toks(r)} {C.rat_str(s)} {N} {V.toks(e1)} {V.toks(e2)} "
+                  f"{V.toks(mu_x)} {V.toks(Lx)}")
+    tgmu, tgL, to1, to2, b, A = rep
+    if to1 != b or to2 != A:
+        ctx.broke("correspondence", "generated-backward-vs-theorem",
+                  f"{desc}: generated _backward of the chain-rule pair (b + 2A mu, 2AL) is not (b, A) = lossGradExpectation "
+                  f"(max gap {float(V.max_gap(((to1, b), (to2, A))))})")
+    tol = 1e-7 * max(1.0, kappa * 1e-3)
+    gs = max([1.0] + [abs(float(v)) for row in tgL for v in row] + [abs(float(v[0])) for v in tgmu])
+    up = max(max(abs(float(a[0]) - g) for a, g in zip(tgmu, gmu.tolist())),
+             max(abs(float(tgL[i][j]) - gL[i][j].item()) for i in range(M) for j in range(i + 1)))
+    _state["worst_upstream"] = max(_state.get("worst_upstream", 0.0), up / gs)
+    if up > tol * gs:
+        ctx.broke("correspondence", "autograd-upstream-gradient",
+                  f"{desc}: (dout_dmu, tril dout_dL) delivered to _NaturalToMuVarSqrt.backward differ from the chain-rule "
+                  f"gradient (b + 2A mu, 2AL) of theorem elbo_grad_mu_chol by {up:.3e} (scale {gs:.2e})")
+    g1, g2 = d15.ask(f"NB {M} {V.toks(V.fcol(gmu))} {V.toks(V.fmat(gL))} {V.toks(V.fcol(mu))} {V.toks(V.fmat(L))} "
+                     f"{V.toks(V.fmat(Cinv))}")
+    os_ = max([1.0] + [abs(float(v)) for row in g2 for v in row])
+    ge = max(max(abs(float(a[0]) - g) for a, g in zip(g1, o1.tolist())),
+             max(abs(float(a) - g) for ra, rg in zip(g2, o2.tolist()) for a, g in zip(ra, rg)))
+    _state["worst_gen_backward"] = max(_state.get("worst_gen_backward", 0.0), ge / os_)
+    if ge > 1e-9 * os_ * max(1.0, kappa):
+        ctx.broke("correspondence", "generated-backward-vs-implementation",
+                  f"{desc}: regenerated _backward on the recorded tensors differs from what _backward returned by {ge:.3e}")
+    # forward
+    Linv_x = V.hp_chol([[-2 * v for v in row] for row in e2])
+    fmu, fL, fcov, r1, r2, plumbing = d15.ask(f"NF {M} {V.toks(e1)} {V.toks(e2)} {V.toks(Linv_x)} {V.toks(Lx)}")
+    if float(V.sc(r1)) > 1e-60 or float(V.sc(r2)) > 1e-60:
+        raise RuntimeError("harness: supplied Cholesky factors violate their contract")
+    if float(V.max_gap(((fmu, mu_x), (fcov, S_x)))) > 1e-55 or V.sc(plumbing) != 1:
+        ctx.broke("correspondence", "generated-forward-vs-model",
+                  f"{desc}: regenerated _forward / distForward differ from the natural map of the model by "
+                  f"{float(V.max_gap(((fmu, mu_x), (fcov, S_x))))} (autograd plumbing facts: {V.sc(plumbing)})")
+    fe = max(max(abs(float(a[0]) - g) for a, g in zip(fmu, mu.tolist())),
+             max(abs(float(a) - g) for ra, rg in zip(fL, L.tolist()) for a, g in zip(ra, rg)))
+    fs = max([1.0] + [abs(float(v)) for row in fL for v in row] + [abs(float(v[0])) for v in fmu])
+    if fe > 1e-8 * fs * max(1.0, kappa):
+        ctx.fail("natural-forward/value", f"{desc}: (mu, L) of NaturalVariationalDistribution.forward differ from "
+                 f"((-2 eta2)^-1 eta1, chol((-2 eta2)^-1)) by {fe:.3e}", {"desc": desc})
+    ctx.count("backward_chain_checks")
 
 
 def tri_inv(T):
@@ -869,7 +1015,7 @@ def run_bound_batched(ctx, d14, d15, cfg, rng, replay_only=None):
     mat_param = dist.natural_mat if natural else dist.natural_tril_mat
     e1_all, e2_all = dist.natural_vec.detach().clone(), mat_param.detach().clone()
     opt.zero_grad()
-    with jitter_setting(cfg.get("jitter_ctx_use")):
+    with jitter_setting(cfg.get("jitter_ctx_use")), BackwardSpy() as spy:
         val = mll(model(x), y)
         (-val.sum()).backward()
     val0 = val.detach().clone() * N
@@ -939,6 +1085,10 @@ def run_bound_batched(ctx, d14, d15, cfg, rng, replay_only=None):
                        max(abs(float(a) - g) for ra, rg in zip(exp2, g2_all[b].tolist()) for a, g in zip(ra, rg)))
             gs = max([1.0] + [abs(float(a)) for ra in exp2 for a in ra] + [abs(float(a[0])) for a in mg1])
             _state["worst_grad_batched"] = max(_state.get("worst_grad_batched", 0.0), gerr / gs)
+            if natural and len(spy.calls) == 1:
+                check_backward_chain(ctx, d14, d15, desc, tuple(t[b] for t in spy.calls[0]), M, n, L, kzx, r, s, N, e1, e2, kappa)
+            elif natural:
+                ctx.broke("correspondence", "backward-not-called-once", f"{desc}: _backward called {len(spy.calls)} times")
             if gerr > 1e-7 * gs * max(1.0, kappa * 1e-3):
                 ctx.fail(f"{key}/natural-gradient",
                          f"{desc}: the gradient handed to NGD differs from the closed-form expectation-parameter gradient "
@@ -1117,7 +1267,8 @@ def correspondence(ctx):
         d14.close()
         if d15 is not None:
             d15.close()
-    for k in ("worst", "worst_opt", "worst_ngd", "worst_grad", "min_gap", "worst_grad_batched", "worst_ngd_batched"):
+    for k in ("worst", "worst_opt", "worst_ngd", "worst_grad", "min_gap", "worst_grad_batched", "worst_ngd_batched",
+              "worst_upstream", "worst_gen_backward"):
         if k in _state:
             ctx.notes[f"c15_{k}"] = _state[k]
     ctx.notes["driver_requests"] = d14.n + (d15.n if d15 is not None else 0)
